@@ -50,7 +50,7 @@ func init() {
 		ID:    "C20",
 		Level: "fault_enumeration",
 		Rule: "hand-built decorator.Package values (1-3 files chosen from 8 import-bearing canonical sources (two use different packages of the same name, one dot-imports one of them, one carries a //line directive above its package clause), in 1-2 directories of a fresh temporary tree that also holds unrelated files) x every assignment of {unedited, declaration needing a new import appended, last declaration removed, declarations referring to two equally named packages appended} to the files " +
-			"x every position of the package-name resolver's call sequence failed (choice tree, one failure), through Package.SaveWithResolver on the real file system; oracle: directory snapshot (paths, bytes, modes) before/after: no path appears or disappears, " +
+			"x every position of the package-name resolver's call sequence failed (choice tree, one failure), through Package.SaveWithResolver on the real file system, plus one history of Package.Save with its default resolver (the go tool) on a small module (save; dependency made unresolvable; two failing saves; dependency restored; save); oracle: directory snapshot (paths, bytes, modes) before/after: no path appears or disappears, " +
 			"each saved file equals an independently computed import-managed print of a clone, unedited files are byte-identical, on failure the error is returned (wrapping the resolver's), the failing file and every later file are untouched; non-trivial = case with an edit or a failure",
 		Assumptions: []string{"decorator.Load itself (go/packages) is not exercised: packages are built by hand with the same Decorator/Filenames/Syntax fields Load fills in"},
 		Units: func(tier string) []string {
@@ -60,13 +60,17 @@ func init() {
 					u = append(u, fmt.Sprintf("files=%d/first=%s", n, c20Pool[first]))
 				}
 			}
-			return u
+			return append(u, "default-resolver")
 		},
 		Run: runC20,
 		Check: func(c core.Case) core.Outcome {
 			var cs c20Case
 			if err := json.Unmarshal(c, &cs); err != nil {
 				panic(err)
+			}
+			if len(cs.Files) == 1 && cs.Files[0] == "@default-resolver" {
+				o, _ := c20DefaultResolver()
+				return o
 			}
 			var o core.Outcome
 			explore.Replay(cs.Choices, func(ch *explore.Chooser) { o = c20Exec(cs, ch) })
@@ -75,7 +79,90 @@ func init() {
 	})
 }
 
+// c20DefaultResolver drives Package.Save (the default package-name resolver, which runs the go tool) on a
+// small module in a temporary directory: save, make a dependency unresolvable and save again (error,
+// nothing written), restore the dependency and save once more (same bytes as at the start).
+// usable=false if the go tool cannot resolve names in this environment at all (then nothing is judged).
+func c20DefaultResolver() (out core.Outcome, usable bool) {
+	fail := func(key, f string, a ...interface{}) (core.Outcome, bool) {
+		return core.Outcome{Key: key, Desc: "Package.Save with the default resolver: " + fmt.Sprintf(f, a...)}, true
+	}
+	root, err := os.MkdirTemp("", "c20def")
+	if err != nil {
+		panic(err)
+	}
+	defer os.RemoveAll(root)
+	files := map[string]string{
+		"go.mod":     "module root\n\ngo 1.14\n",
+		"a.go":       "package root\n\nimport \"fmt\"\n\nfunc A() {\n\tfmt.Println(\"a\")\n}\n",
+		"b.go":       "package root\n\nimport \"root/sub\"\n\nfunc B() string {\n\treturn sub.Hello()\n}\n",
+		"c.go":       "package root\n\nimport \"strings\"\n\nfunc C() string {\n\treturn strings.ToUpper(\"c\")\n}\n",
+		"sub/sub.go": "package sub\n\nfunc Hello() string {\n\treturn \"hello\"\n}\n",
+	}
+	for name, src := range files {
+		os.MkdirAll(filepath.Dir(filepath.Join(root, name)), 0o755)
+		os.WriteFile(filepath.Join(root, name), []byte(src), 0o644)
+	}
+	dec := decorator.NewDecoratorWithImports(token.NewFileSet(), "root", goast.WithResolver(simple.New(map[string]string{"fmt": "fmt", "strings": "strings", "root/sub": "sub"})))
+	pkg := &decorator.Package{Package: &packages.Package{PkgPath: "root"}, Dir: root, Decorator: dec, Imports: map[string]*decorator.Package{}}
+	for _, n := range []string{"a.go", "b.go", "c.go"} {
+		f, perr := dec.ParseFile(filepath.Join(root, n), nil, 0)
+		if perr != nil {
+			panic(perr)
+		}
+		pkg.Syntax = append(pkg.Syntax, f)
+	}
+	changed := func() string {
+		for _, n := range []string{"a.go", "b.go", "c.go"} {
+			b, _ := os.ReadFile(filepath.Join(root, n))
+			if string(b) != files[n] {
+				return fmt.Sprintf("%s changed on disk:\n%s", n, diffDesc(files[n], string(b)))
+			}
+		}
+		return ""
+	}
+	var serr error
+	if p := guard(func() { serr = pkg.Save() }); p != "" || serr != nil {
+		return core.Outcome{OK: true}, false // the go tool cannot be used here: outside what this check can judge
+	}
+	if c := changed(); c != "" {
+		return fail("default-save-changes-unedited-files", "first Save: %s", c)
+	}
+	os.Rename(filepath.Join(root, "sub"), filepath.Join(root, "sub.moved"))
+	for i := 1; i <= 2; i++ {
+		if p := guard(func() { serr = pkg.Save() }); p != "" {
+			return fail("default-save-panic", "Save #%d with an unresolvable import panicked: %s", i, p)
+		}
+		if serr == nil {
+			return fail("default-save-failure-not-reported", "Save #%d: the name of root/sub cannot be resolved, yet Save returned nil", i)
+		}
+		if c := changed(); c != "" {
+			return fail("default-save-writes-on-failure", "Save #%d failed (%v) but %s", i, serr, c)
+		}
+	}
+	os.Rename(filepath.Join(root, "sub.moved"), filepath.Join(root, "sub"))
+	if p := guard(func() { serr = pkg.Save() }); p != "" || serr != nil {
+		return fail("default-save-retry-fails", "Save after the import became resolvable again: panic %q error %v", p, serr)
+	}
+	if c := changed(); c != "" {
+		return fail("default-save-retry-differs", "retried Save: %s", c)
+	}
+	return core.Outcome{OK: true}, true
+}
+
 func runC20(ctx *core.Ctx, unit int) {
+	if unit == 3*len(c20Pool) {
+		cs := c20Case{Files: []string{"@default-resolver"}}
+		o, usable := c20DefaultResolver()
+		if !usable {
+			ctx.Count("default resolver (go tool) not usable in this environment: Package.Save not judged", 1)
+			return
+		}
+		ctx.CountState(true)
+		ctx.R.Transitions += 4
+		ctx.Eval(cs, o)
+		return
+	}
 	n, first := unit/len(c20Pool)+1, unit%len(c20Pool)
 	var rec func(files []string)
 	rec = func(files []string) {
